@@ -102,6 +102,14 @@ CHECKS["C04"] = dict(
     note="Rule files are data: coverage of rule paths is by generated expressions, not by a model of each rule. More occurrences than planted is MODEL-DRIFT only. Two known findings (decimal-comma mixed number; Vietnamese under/over scripts) are listed.",
 )
 
+CHECKS["C06"] = dict(
+    category="model_checking",
+    technique="TLC-enumerated textbook-grammar contexts (ExprGen.tla) with a distinct numeric literal at every operand position brailled under every code x code-specific preference; contiguous cell runs of each literal judged by TLC (Trace_Operands.tla) on the final braille and on every clean-up result (braille_cleanup hook)",
+    text="Every context P(..Q(..)..) of 31 productions (exhaustive to depth 2) plus simulated depth-4 nestings, distinct 3-digit literals at every operand position, under 8 braille codes x their preferences (UEB start mode and spacing, LaTeX short names, Vietnam drop numbers): TLC counts the contiguous run of each literal's cells (calibrated by brailling the bare literal; upper or lowered digits) in the output and in each raw->cleaned clean-up result and rejects fewer runs than occurrences. All configurations in thorough, 3 seeded per tree in quick.",
+    design_ref="DESIGN.md section 5 C06",
+    note="The digit cells come from the library's own braille of the bare literal, so the check is about operands lost or split in context, not about the digit table. Two known findings (CMU menclose box, Swedish sum upper limit) are listed.",
+)
+
 NOT_YET = {}
 
 
